@@ -282,38 +282,55 @@ class Parser:
         self._parse_subtree(node)
         root.add_child(node)
 
-    def _parse_subtree(self, root: ASTNode) -> None:
-        flag = True  # flag to check if the brachet_left can be consumed
+    def _parse_subtree(self, root: ASTNode, opened: bool = True) -> None:
+        """Parse one branch, up to the `|` or `)` that ends it.
+
+        Parameters
+        ----------
+        root : ASTNode
+            The node the branch grows from.
+        opened : bool, default `True`
+            A left bracket has been consumed whose meaning (point,
+            color or split) is still unknown.
+        """
         current = root
         while (token := self.next_token) is not None:
             match token.type:
                 case TokenType.BRACKET_LEFT:
-                    self._read_token()
-                    if flag:
-                        flag = False
-                    else:
-                        self._parse_subtree(current)
+                    if opened:  # the open bracket starts a split
+                        self._parse_split(current)
+                        opened = False
+                        continue
 
-                case TokenType.BRACKET_RIGHT:
-                    break
+                    self._read_token()
+                    opened = True
+
+                case TokenType.BRACKET_RIGHT | TokenType.OR:
+                    if opened:  # the open bracket starts a split
+                        self._parse_split(current)
+                        opened = False
+                        continue
+
+                    break  # end of this branch
 
                 case TokenType.FLOAT:
+                    if not opened:
+                        raise TokenTypeError(token, "BRACKET_LEFT")
+
                     current = self._parse_node(current)
-                    flag = True
+                    opened = False
 
                 case TokenType.LITERAL:
+                    if not opened:
+                        raise TokenTypeError(token, "BRACKET_LEFT")
+
                     match str.upper(token.value):
                         case "COLOR":
                             self._parse_color(current)
                         case _:
                             raise LiteralTokenError(token, "COLOR")
 
-                    flag = True
-
-                case TokenType.OR:
-                    current = root
-                    self._read_token()
-                    flag = True
+                    opened = False
 
                 case TokenType.COMMENT:
                     self._parse_comment(current)
@@ -325,6 +342,24 @@ class Parser:
                     raise TokenTypeError(token, excepted)
 
             current.tokens.append(token)
+
+    def _parse_split(self, root: ASTNode) -> None:
+        # BRANCH | BRANCH | ... ), the left bracket has been consumed
+        opened = False
+        if self.next_token is not None:
+            opened = self.next_token.type == TokenType.BRACKET_LEFT
+            if opened:
+                root.tokens.append(cast(Token, self._consume()))
+
+        while True:
+            self._parse_subtree(root, opened)
+            opened = False
+            if self.next_token is None or self.next_token.type != TokenType.OR:
+                break
+
+            root.tokens.append(cast(Token, self._consume()))
+
+        root.tokens.append(self._assert_and_cunsume(TokenType.BRACKET_RIGHT))
 
     def _parse_node(self, root: ASTNode) -> ASTNode:
         # FLOAT FLOAT FLOAT FLOAT )
